@@ -245,6 +245,8 @@ pub type W1K = Blob<1024>;
 pub type W4K = Blob<4104>;      // (just above the page size: `> 4096` and `>= 4096` gates alike)
 /// a 64 KiB tile: element-size-proportional stack buffers overflow, byte thresholds in the 10^5 range are crossed by 2 cells
 pub type W64K = Blob<65544>;
+/// a mebibyte per element (replayed on a larger harness stack: the harness itself moves elements by value)
+pub type W1M = Blob<1048584>;
 
 /// `N` machine words, alignment 8 (u64 / f64 / pointer-like layouts; an ODD number of words is what block-wise moves of
 /// two words at a time forget).  The origin is the first word, the others repeat a pattern derived from it.
